@@ -759,5 +759,10 @@ def parse_template(ex, target, toks):
             return A.type_path_ident(Ident('Self', CALL_SITE, 'macro'))
         if len(toks) == 1 and toks[0][0] == 'G' and toks[0][1] == '(' and not toks[0][2]:
             return A.type_tuple([])
+        if len(toks) == 1 and is_i(toks[0]):
+            tk = toks[0]
+            return A.type_path_ident(Ident(tk[1], CALL_SITE, tk[2] if len(tk) > 2 else 'macro'))
+        if toks and all(t_[0] in ('I', 'P', 'N', 'LT', 'G') for t_ in toks):
+            return A.type_verbatim(toks)
         raise Unsupported('parse_quote Type template: ' + repr(toks)[:200])
     raise Unsupported('parse_quote target ' + t)
